@@ -31,6 +31,18 @@ def gen(seed: int, tier: str, idx=None):
         g.emit({"op": "new_doc", "rows": rng0.randint(1, 4), "cols": rng0.randint(1, 4),
                 "sheet": rng0.choice(["Sheet 1", "Sheet 1", "sheet 2", "S"]), "table": rng0.choice(["Table 1", "Table 1", "table 2", "Table 3", "T"])})
     steps = rng0.randint(5, 30 if tier == "thorough" else 22)
+    if rng0.random() < 0.12:
+        # a crowded collection: automatic names must stay fresh past 'Table 9' / 'Sheet 9' (two-digit numbers)
+        cfg["max_items"] = 14
+        g.ms.cfg["max_items"] = 14
+        kind_ = rng0.choice(["add_table", "add_sheet"])
+        for _ in range(rng0.randint(9, 12)):
+            if kind_ == "add_table":
+                g.emit({"op": "add_table", "d": 0, "s": 0, "rows": 1, "cols": 1, "hr": 0, "hc": 0})
+            else:
+                g.emit({"op": "add_sheet", "d": 0, "rows": 1, "cols": 1})
+        g.emit({"op": "lookup", "d": 0, "s": 0})
+        steps = min(steps, 6)
     weights = {"add_table": 10, "add_sheet": 6, "rename_table": 3, "rename_sheet": 2, "lookup": 8, "save": 3, "restart": 3, "write": 1}
     names, wts = list(weights), list(weights.values())
 
